@@ -752,10 +752,14 @@ class introduction(Method):
         cur_item.subproof = pt.export(prefix=id)
         state.check_proof(compute_only=True)
 
-        # Test if the goal is already proved
+        # Test if the goal is already proved. An assumption (or variable) line
+        # is cited by intros, so it can only be replaced by a line stating
+        # exactly the same sequent, not by one with fewer hypotheses.
         for item in cur_item.subproof.items:
             new_id = state.find_goal(state.get_proof_item(item.id).th, item.id)
             if new_id is not None:
+                if item.rule != 'sorry' and state.get_proof_item(new_id).th != item.th:
+                    continue
                 state.replace_id(item.id, new_id)
 
 
